@@ -46,15 +46,16 @@ def runOps (T : Tables) (ops : List Op) (fs : FS) : FS := ops.foldl (fun fs op =
 /-- point updates of a front-end: its `update_*` calls in order, up to the first rejected one -/
 def insPuts (T : Tables) : List (UpdFn × Bool) → List UpdInput → List (Key × Val) × Option Err
   | (u, _) :: cs, inp :: inps =>
-    match (updPuts T u inp).2 with
-    | none => ((updPuts T u inp).1 ++ (insPuts T cs inps).1, (insPuts T cs inps).2)
-    | some e => ((updPuts T u inp).1, some e)
+    match (updPuts T u (u.prep T inp)).2 with
+    | none => ((updPuts T u (u.prep T inp)).1 ++ (insPuts T cs inps).1, (insPuts T cs inps).2)
+    | some e => ((updPuts T u (u.prep T inp)).1, some e)
   | _, _ => ([], none)
 
 /-- **the abstract specification** of one call on the key → value map: a list of point updates and an outcome, both
-computed from the call's arguments alone.  `add_y` is the update of the family it is named after. -/
+computed from the call's arguments alone.  `add_y` is the update of the family it is named after.  (`prep` is the
+identity, except for `update_pec_rates` while the table flag `pecReindexes` is set: see `Model/Repository.lean`.) -/
 def Op.puts (T : Tables) : Op → List (Key × Val) × Option Err
-  | .upd u inp _ => updPuts T u inp
+  | .upd u inp _ => updPuts T u (u.prep T inp)
   | .add a args items _ => updPuts T a.own (a.wrap T args items)
   | .ins i inps _ => insPuts T (T.installCalls i) inps
 
@@ -116,7 +117,9 @@ theorem op_refines (T : Tables) (hW : T.wellFormed = true) (op : Op) (hT : op.Ty
   | upd u inp r => exact update_refines T hS hD u inp hT r fs k hk
   | add a args items r =>
     simp only [Op.run, Op.puts, Op.root, add_eq_update T hA]
-    exact update_refines T hS hD a.own _ hT r fs k hk
+    have := update_refines T hS hD a.own _ hT r fs k hk
+    rw [prep_wrap T a (addMatches_of T hA a).2.2] at this
+    exact this
   | ins i inps r =>
     simp only [Op.run, Op.puts, Op.root, install, installSeq_eq T r _ inps fs (rootPassed_of T hR i)]
     exact installAll_refines T hS hD r k hk _ inps fs hT
@@ -416,7 +419,7 @@ theorem rejected_update_preserves (T : Tables) (hW : T.wellFormed = true) (u : U
   constructor
   · intro hn
     rw [h]
-    exact applyPuts_not_mem _ _ _ (fun hm => hn (updPuts_keys_sub T u inp k hm))
+    exact applyPuts_not_mem _ _ _ (fun hm => hn (targets_prep T u inp ▸ updPuts_keys_sub T u _ k hm))
   · intro hs
     rw [h]
     exact applyPuts_isSome _ _ _ hs
@@ -457,9 +460,13 @@ theorem misrouted_add_never_updates_own_family (T : Tables) (hS : T.shapesOk = t
     (args : List Arg) (items : List (List Arg × Rate)) (hT : InputTyped u' (a.wrap T args items))
     (root : Option Path) (fs : FS) (k : Key) (hk : k.ok = true) (hf : k.fam = a.own) :
     absView T (resolve root) (add T a args items root fs).1.at k = absView T (resolve root) fs.at k := by
-  have e : add T a args items root fs = update T u' (a.wrap T args items) root fs := by
-    unfold add update; rw [h1, h2]
-  rw [e, (update_refines T hS hD u' _ hT root fs k hk).2]
+  have e : add T a args items root fs
+      = seqEntries (updateEntry u' (T.tmplOfUpd u') (resolve root)) (a.wrap T args items) fs := by
+    unfold add; rw [h1, h2]
+  obtain ⟨_, s2⟩ := seqEntries_spec _ _ (fun e fs => updateEntry_spec u' (T.tmplOfUpd u') (resolve root) e fs)
+    (a.wrap T args items) fs
+  obtain ⟨_, r2⟩ := seq_refines T hS hD (resolve root) u' k hk _ hT fs.at
+  rw [e, s2, r2]
   apply applyPuts_not_mem
   intro hm
   simp only [List.mem_map] at hm
@@ -479,6 +486,31 @@ theorem dropped_root_escapes (T : Tables) (u : UpdFn) (inp : UpdInput) (R : Path
     cases o <;> rfl
   refine ⟨e, fun p hp => ?_⟩
   rw [e]; exact update_read T u inp none fs p hp
+
+/-- for dictionaries whose class keys are lower-case (the documented `'excitation'`, `'recombination'`), and for every
+family other than PEC, `update_x` iterates exactly the dictionary it was given: the specification `Op.puts` is about the
+rates that were passed -/
+theorem prep_id_of_lower_classes (T : Tables) (u : UpdFn) (inp : UpdInput)
+    (h : ∀ e ∈ inp, ∀ c rest, e.args = .str c :: rest → lower c = c) : u.prep T inp = inp := by
+  cases u <;> simp only [UpdFn.prep]
+  split
+  · exact pecReindex_lower inp h
+  · rfl
+
+/-- … and for every dictionary once the table flag is off (source fetches `transitions[transition]`) -/
+theorem prep_id_of_tables (T : Tables) (h : T.pecReindexes = false) (u : UpdFn) (inp : UpdInput) :
+    u.prep T inp = inp := by
+  cases u <;> simp [UpdFn.prep, h]
+
+theorem lower_RECOMBINATION : lower "RECOMBINATION" = "recombination" := by
+  apply String.toList_injective; simp [lower, String.toLower, String.toList_map]
+
+/-- why `pecReindexes` matters: while it is set, a call that carries both spellings of a class stores, for the entry
+spelled in upper case, the rate of the *lower-case* entry — the rate `B` passed for it is never stored -/
+theorem pec_mixed_case_class_reads_other_entry (e q t : Arg) (A B : Rate) :
+    pecReindex [⟨[.str "recombination", e, q], [([t], A)]⟩, ⟨[.str "RECOMBINATION", e, q], [([t], B)]⟩]
+      = [⟨[.str "recombination", e, q], [([t], A)]⟩, ⟨[.str "RECOMBINATION", e, q], [([t], A)]⟩] := by
+  simp [pecReindex, lower_RECOMBINATION, lower_recombination, alookup]
 
 /-- the tables a source without the two routing slips yields -/
 def idealTables : Tables where
@@ -537,6 +569,7 @@ def idealTables : Tables where
     | .adf22bmp => [(.beamPopulation, true)]
     | .adf22bme => [(.beamEmission, true)]
   frontCalls := [("install_files", "install_adf15", true)]
+  pecReindexes := false
 
 /-- the hypothesis `T.wellFormed` of all theorems above is satisfiable -/
 theorem idealTables_wellFormed : idealTables.wellFormed = true := by decide
@@ -552,7 +585,7 @@ example : misroutedTables.addMatches = false ∧ misroutedTables.shapesOk = true
 -- non-vacuity: well-kinded keys, typed inputs and histories satisfying the hypotheses of `refines_kv` exist
 example : (Key.mk .ionisation [.sym "c"] [.num 2]).ok = true := by decide
 example : (Key.mk .beamCx [.sym "d", .sym "c", .num 6] [.tr "8 -> 7", .num 1]).ok = true := by decide
-example (r : Rate) : InputTyped .continuumPower [⟨[.sp ⟨true, "C", 6⟩], [([.num 2], r)]⟩] := by
+example (r : Rate) : InputTyped .continuumPower [⟨[.sp ⟨true, "C", 6, 0⟩], [([.num 2], r)]⟩] := by
   intro e he
   simp only [List.mem_singleton] at he
   subst he
@@ -566,9 +599,9 @@ example (r : Rate) : InputTyped .continuumPower [⟨[.sp ⟨true, "C", 6⟩], [(
 the key (continuum, c, 2) holds the validated `r` (read-your-write, an instance of `refines_kv`) -/
 example (r : Rate) (v : Val) (hv : validateAdf11 r = .ok v) (R : Path) (fs : FS) :
     absView idealTables R
-      (runOps idealTables [.add .continuumPower [.sp ⟨true, "C", 6⟩, .num 2] [([], r)] (some R)] fs).at
+      (runOps idealTables [.add .continuumPower [.sp ⟨true, "C", 6, 0⟩, .num 2] [([], r)] (some R)] fs).at
       ⟨.continuumPower, [.sym (lower "C")], [.num 2]⟩ = some v := by
-  have hT : ∀ op ∈ [Op.add .continuumPower [.sp ⟨true, "C", 6⟩, .num 2] [([], r)] (some R)],
+  have hT : ∀ op ∈ [Op.add .continuumPower [.sp ⟨true, "C", 6, 0⟩, .num 2] [([], r)] (some R)],
       op.Typed idealTables ∧ resolve op.root = R := by
     intro op hop
     simp only [List.mem_singleton] at hop
@@ -583,7 +616,7 @@ example (r : Rate) (v : Val) (hv : validateAdf11 r = .ok v) (R : Path) (fs : FS)
     subst hit
     rfl
   rw [refines_kv idealTables idealTables_wellFormed R _ hT fs _ (by decide)]
-  have hp : (Op.puts idealTables (.add .continuumPower [.sp ⟨true, "C", 6⟩, .num 2] [([], r)] (some R))).1
+  have hp : (Op.puts idealTables (.add .continuumPower [.sp ⟨true, "C", 6, 0⟩, .num 2] [([], r)] (some R))).1
       = [(⟨.continuumPower, [.sym (lower "C")], [.num 2]⟩, v)] := by
     simp [Op.puts, AddFn.wrap, AddFn.own, updPuts, seqPuts, entryPuts, UpdFn.precheck, isElem, Tables.tmplOfUpd,
       idealTables, Template.inst, renderSlots, renderSlot, UpdFn.normArgs, Arg.norm, UpdFn.pattern, prefixKV, itemKV,
